@@ -352,19 +352,34 @@ def scenario_interpolated_isdirectory(ck, stats, L):
     rmtree_long(sb.root)
 
 
-def scenario_hostname(ck, stats, hl):
-    """generated file name with a host name of length hl (pinned through the interposer)"""
+def scenario_hostname(ck, stats, hl, collide=0):
+    """generated file name with a host name of length hl (pinned through the interposer); collide = number of candidate
+    names that already exist, so that the counter in the name grows (6 -> 10 -> 100: one more character each time)"""
     sb = mdrun.Sandbox()
     src = sb.maildir('src'); dst = sb.maildir('dst')
     sb.add(src, 'new', b'To: a\n\nb\n')
+    pre = []
+    for j in range(collide):
+        n = '1700000000.4242_%d.' % (6 + j) + 'h' * hl + ':2,'
+        if len(n) <= NAME_MAX:
+            with open(os.path.join(dst, 'new', n), 'wb') as f:
+                f.write(b'pre-existing\n')
+            pre.append(n)
     conf = sb.write_conf(b'maildir "%s" {\n match all move "%s"\n}\n' % (src.encode(), dst.encode()))
     host = 'h' * hl
     rc, out, err = sb.run([], conf=conf, env={'VFIO_HOST': host, 'VFIO_TIME': '1700000000', 'VFIO_PID': '4242', 'VFIO_RANDOM': '5'},
                           preload=os.path.join(common.VERIF, 'shim', 'libvfio.so'))
     stats['binary'] += 1
-    moved = sb.snapshot(dst); left = sb.snapshot(src)
-    expect = '1700000000.4242_6.' + host + ':2,'
-    if rc == 0:
+    moved = {k: v for k, v in sb.snapshot(dst).items() if k[1] not in pre}; left = sb.snapshot(src)
+    gone = [n for n in pre if ('new', n) not in sb.snapshot(dst)]
+    if gone:
+        ck.violation('host name of length %d, %d colliding names: pre-existing file(s) removed or replaced: %r' % (hl, collide, [len(n) for n in gone]),
+                     {'scenario': 'hostname', 'length': hl, 'collide': collide})
+    expect = '1700000000.4242_%d.' % (6 + len(pre)) + host + ':2,'
+    if len(expect) > NAME_MAX and rc == 0:
+        ck.violation('host name of length %d, %d colliding names: the next name needs %d characters (NAME_MAX %d) but mdsort exits 0; destination now holds %r'
+                     % (hl, collide, len(expect), NAME_MAX, [len(n) for (_, n) in moved]), {'scenario': 'hostname', 'length': hl, 'collide': collide})
+    elif rc == 0:
         names = [n for (_, n) in moved]
         if names != [expect] or left:
             ck.violation('host name of length %d: exit 0 but destination holds %r (intended name has %d characters)' % (hl, [len(n) for n in names], len(expect)),
@@ -519,6 +534,10 @@ def run(ck):
     fixed = len('1700000000.4242_6.') + len(':2,')
     for hl in list(range(NAME_MAX - fixed - 4, NAME_MAX - fixed + 5, 1)) + [250, 254, 255, 256, 257, 300]:
         scenario_hostname(ck, stats, hl)
+    # the counter gains a digit on the way: first candidate just fits, the next free one may not
+    for hl in range(NAME_MAX - fixed - 2, NAME_MAX - fixed + 1):
+        for collide in (4, 94):
+            scenario_hostname(ck, stats, hl, collide)
     for E in range(PATH_MAX - 3, PATH_MAX + 3):
         scenario_tilde(ck, stats, E)
     for L in range(PATH_MAX - w, PATH_MAX + 2, step * 2):
@@ -561,7 +580,7 @@ def replay(ck, rp):
     elif sc == 'message_path':
         scenario_message_path(ck, stats, rp['k'], rp['rule'].encode())
     elif sc == 'hostname':
-        scenario_hostname(ck, stats, rp['length'])
+        scenario_hostname(ck, stats, rp['length'], rp.get('collide', 0))
     elif sc in ('HOME', 'TMPDIR'):
         scenario_env(ck, stats, sc, rp['length'])
     elif sc == 'tilde':
